@@ -263,3 +263,63 @@ func VerifH_RouteThenStop() {
 	_ = m.Default().Close()
 	vrt.Cover("routestop-end")
 }
+
+// VerifH_RouteAfterListenerClose: a routed listener is closed by its user while the mux keeps
+// running. Once that has settled the prefix is no longer registered: a connection carrying
+// it goes to the default listener with its byte stream intact, or - when the prefix is
+// routed again - to the new listener (prefix consumed), whose Accept works.
+func VerifH_RouteAfterListenerClose() {
+	base := &fListener{}
+	m := NewListenMux(base, 2)
+	first := m.Route("ab")
+	other := m.Route("cd") // an unrelated route stays registered
+	_ = first.Close()
+	vrt.Quiesce()
+	_, err := first.Accept()
+	vrt.Assert(err != nil, "Accept on a closed routed listener fails")
+	reroute := vrt.Bool("reroute")
+	var lis net.Listener = m.Default()
+	if reroute {
+		lis = m.Route("ab")
+	}
+	data := []byte{'a', 'b', vrt.U8("x")}
+	orig := append([]byte(nil), data...)
+	conn := &fConn{in: data}
+	var got net.Conn
+	var aerr error
+	adone, rdone := false, false
+	go func() { got, aerr = lis.Accept(); adone = true }()
+	go func() { m.routeConn(conn); rdone = true }()
+	vrt.Quiesce()
+	vrt.Assert(rdone, "routing completes")
+	vrt.Assert(adone && aerr == nil && got != nil, "the connection is delivered: to the re-registered route, otherwise to the default listener")
+	vrt.Assert(!conn.closed, "a delivered connection is not closed")
+	if got != nil {
+		var all []byte
+		buf := make([]byte, 4)
+		for i := 0; i < 4; i++ {
+			n, err := got.Read(buf)
+			all = append(all, buf[:n]...)
+			if err != nil {
+				break
+			}
+		}
+		if reroute {
+			vrt.Assert(len(all) == 1 && all[0] == orig[2], "the re-registered route sees the stream after the consumed prefix")
+		} else {
+			vrt.Assert(len(all) == 3 && all[0] == 'a' && all[1] == 'b' && all[2] == orig[2], "the default listener sees the client's bytes from the first byte")
+		}
+	}
+	// the unrelated route still works
+	conn2 := &fConn{in: []byte{'c', 'd', 'y'}}
+	var got2 net.Conn
+	go func() { got2, _ = other.Accept() }()
+	go func() { m.routeConn(conn2) }()
+	vrt.Quiesce()
+	vrt.Assert(got2 != nil && !conn2.closed, "another registered route is unaffected")
+	_ = lis.Close()
+	_ = other.Close()
+	_ = m.Default().Close()
+	vrt.Quiesce()
+	vrt.Cover("reroute-end")
+}
